@@ -32,7 +32,7 @@ use crate::cli;
 use crate::engine::*;
 use crate::gen::json::{j_eq, to_compact, J};
 use crate::gen::yaml::{self as gy, Seg, YOpts, YStrings, Y};
-use crate::gen::yqprog::{self, WriteProg};
+use crate::gen::yqprog::{self, ProgMode, WriteProg};
 use crate::oracle::jsonval;
 use serde_json::{json, Value};
 use std::sync::atomic::{AtomicU64, Ordering};
@@ -45,6 +45,8 @@ static TIMEOUTS: AtomicU64 = AtomicU64::new(0);
 /// Signatures of C15's own findings (see known_findings.json); the generator consults
 /// `Ctx::is_known` for each to decide what to avoid.
 const SIG_I0: &str = "C15/reread-differs/I0-only";
+const SIG_HEADER_COMMENT: &str = "C15/reread-differs/block-scalar-header-comment";
+const SIG_FOLDED_LEAD: &str = "C15/reread-differs/folded-leading-blank-lines";
 
 #[derive(Clone, Debug)]
 pub struct Case {
@@ -178,6 +180,70 @@ fn jpath(p: &[Seg]) -> String {
     gy::path_str(p)
 }
 
+/// `got` = `want` with ` #...` inserted at the end of its last content line
+fn comment_spliced(want: &str, got: &str) -> bool {
+    let body = want.trim_end_matches('\n');
+    let tail = &want[body.len()..];
+    match got.strip_prefix(body) {
+        Some(rest) => {
+            let rest = rest.strip_suffix(tail).unwrap_or(rest);
+            let t = rest.trim_start_matches([' ', '\t']);
+            t.len() < rest.len() && t.starts_with('#') && !t.contains('\n')
+        }
+        None => false,
+    }
+}
+
+/// `got` = `want` with more line breaks in front of the same text
+fn leading_breaks_multiplied(want: &str, got: &str) -> bool {
+    let (w, g) = (want.trim_start_matches('\n'), got.trim_start_matches('\n'));
+    let (kw, kg) = (want.len() - w.len(), got.len() - g.len());
+    kw >= 1 && kg > kw && w == g
+}
+
+/// Some line of the YAML text is a block scalar header followed by a comment
+/// (`key: |+ # c`, `- > # c`). Textual approximation used only to attribute a failure.
+pub fn has_block_header_comment(yaml: &[u8]) -> bool {
+    let t = String::from_utf8_lossy(yaml);
+    for line in t.split(['\n', '\r']) {
+        let b = line.as_bytes();
+        for i in 0..b.len() {
+            if (b[i] == b'|' || b[i] == b'>') && (i == 0 || b[i - 1] == b' ' || b[i - 1] == b'\t') {
+                let mut k = i + 1;
+                while k < b.len() && (b[k] == b'+' || b[k] == b'-' || b[k].is_ascii_digit()) {
+                    k += 1;
+                }
+                let rest = &b[k..];
+                let trimmed: &[u8] = {
+                    let mut r = rest;
+                    while let Some((&c, x)) = r.split_first() {
+                        if c == b' ' || c == b'\t' {
+                            r = x;
+                        } else {
+                            break;
+                        }
+                    }
+                    r
+                };
+                if trimmed.len() < rest.len() && trimmed.first() == Some(&b'#') {
+                    return true;
+                }
+            }
+        }
+    }
+    false
+}
+
+/// Some line ends in a folded block scalar header (`>`, `>-`, `>+`, optional comment).
+pub fn has_folded_header(yaml: &[u8]) -> bool {
+    let t = String::from_utf8_lossy(yaml);
+    t.split(['\n', '\r']).any(|line| {
+        let l = line.split(" #").next().unwrap_or("").trim_end_matches([' ', '\t']);
+        let l = l.trim_end_matches(['+', '-']);
+        l.ends_with('>') && (l.len() == 1 || l[..l.len() - 1].ends_with([' ', '\t']))
+    })
+}
+
 fn diff(a: &J, b: &J, p: &mut Vec<Seg>) -> Option<Diff> {
     match (a, b) {
         (J::Arr(x), J::Arr(y)) => {
@@ -220,8 +286,13 @@ fn diff(a: &J, b: &J, p: &mut Vec<Seg>) -> Option<Diff> {
             if j_eq(a, b) {
                 return None;
             }
-            let what = match a {
-                J::Str(s) => format!("str:{}", str_class(s, false)),
+            let what = match (a, b) {
+                // the re-read string is the expected one with ` # ...` spliced in before its
+                // trailing line breaks: a comment was written where it becomes content
+                (J::Str(s), J::Str(t)) if comment_spliced(s, t) => "str:comment-text-became-content".to_string(),
+                (J::Str(s), J::Str(t)) if s.ends_with('\n') && s[..s.len() - 1] == **t => "str:one-trailing-line-break-lost".to_string(),
+                (J::Str(s), J::Str(t)) if leading_breaks_multiplied(s, t) => "str:leading-line-breaks-multiplied".to_string(),
+                (J::Str(s), _) => format!("str:{}", str_class(s, false)),
                 _ => format!("{}-reads-as-{}", a.kind(), b.kind()),
             };
             Some(Diff { path: jpath(p), what, expected: trunc(&to_compact(a), 200), actual: trunc(&to_compact(b), 200) })
@@ -493,33 +564,61 @@ fn check_once(case: &Case, indent: u8, st: &mut Stats) -> Result<Outcome, Fail> 
     }
 }
 
-/// The oracle with the `-I 0` attribution: a case that fails at `-I 0` and passes unchanged
-/// at `-I 2` is the zero-indentation finding (its own signature), whatever the symptom.
+/// The oracle plus attribution of a failure to the open findings whose trigger predicate
+/// can be evaluated on the case itself:
+/// * fails at `-I 0` and passes unchanged at `-I 2` → the zero-indentation finding;
+/// * a string differs by a spliced comment / one lost trailing line break and the input
+///   has a block scalar header carrying a comment → the header-comment finding;
+/// * a string differs by multiplied leading line breaks and the input has a folded block
+///   scalar → the folded-leading-blank-line finding.
 pub fn check_case(case: &Case, st: &mut Stats) -> Result<Outcome, Fail> {
-    match check_once(case, case.indent, st) {
-        Err(f) if case.indent == 0 && !f.sig.starts_with("C15/crash") => match check_once(case, 2, st) {
-            Ok(o) if o != Outcome::Discarded => {
-                let mut d = f.detail.clone();
-                if let Some(m) = d.as_object_mut() {
-                    m.insert("symptom_at_I0".into(), json!(f.sig));
-                    m.insert("same_case_at_I2".into(), json!("passes"));
-                }
-                Err(Fail::new(SIG_I0, d))
-            }
-            _ => Err(f),
-        },
-        r => r,
+    let f = match check_once(case, case.indent, st) {
+        Err(f) => f,
+        ok => return ok,
+    };
+    if f.sig.starts_with("C15/crash") {
+        return Err(f);
     }
+    let rename = |f: &Fail, sig: &str, why: &str| -> Fail {
+        let mut d = f.detail.clone();
+        if let Some(m) = d.as_object_mut() {
+            m.insert("symptom".into(), json!(f.sig));
+            m.insert("attributed_because".into(), json!(why));
+        }
+        Fail::new(sig, d)
+    };
+    if case.indent == 0 {
+        if let Ok(o) = check_once(case, 2, st) {
+            if o != Outcome::Discarded {
+                return Err(rename(&f, SIG_I0, "the same case passes at -I 2"));
+            }
+        }
+    }
+    let sym = f.sig.as_str();
+    if (sym == "C15/reread-differs/str:comment-text-became-content" || sym == "C15/reread-differs/str:one-trailing-line-break-lost") && has_block_header_comment(&case.yaml) {
+        return Err(rename(&f, SIG_HEADER_COMMENT, "input has a block scalar header with a comment"));
+    }
+    if sym == "C15/reread-differs/str:leading-line-breaks-multiplied" && has_folded_header(&case.yaml) {
+        return Err(rename(&f, SIG_FOLDED_LEAD, "input has a folded block scalar"));
+    }
+    Err(f)
 }
 
 // ---------------------------------------------------------------- generation
 
-#[derive(Clone, Copy)]
+/// Shapes of C15's own open findings that the main search does not generate
+/// (derived from known_findings.json; a finding that becomes `fixed` is generated again).
+#[derive(Clone, Copy, Default)]
 struct Avoid {
-    /// `-I 0` together with a write program (zero-indentation finding)
+    /// `-I 0` together with a write program
     i0_writes: bool,
-    /// open string-quoting findings: run half of the cases with the simple string palette
-    tame_half: bool,
+    /// strings the DOM emitter fails to quote: write programs get the simple palette
+    /// (documents and literals); `quoting-matrix` covers the palette one string at a time
+    dom_quoting: bool,
+    /// a comment on a block scalar's header line
+    header_comment: bool,
+    /// a folded block scalar whose value starts with a line break
+    folded_leading_blank: bool,
 }
 
 fn doc_opts(simple: bool) -> YOpts {
@@ -546,6 +645,30 @@ fn doc_opts(simple: bool) -> YOpts {
     o
 }
 
+/// (block scalar header with a comment, folded scalar starting with a line break) — exact,
+/// from the span table
+fn own_shapes(r: &gy::RenderedYaml) -> (bool, bool) {
+    let mut header_comment = false;
+    let mut folded_lead = false;
+    for sp in &r.spans {
+        if !matches!(sp.style, gy::YStyle::Literal | gy::YStyle::Folded) {
+            continue;
+        }
+        let line_end = r.text[sp.start..].iter().position(|&b| b == b'\n' || b == b'\r').map(|p| sp.start + p).unwrap_or(r.text.len());
+        if r.text[sp.start..line_end].contains(&b'#') {
+            header_comment = true;
+        }
+        if sp.style == gy::YStyle::Folded {
+            if let Y::Str(s) = &sp.value {
+                if s.starts_with('\n') {
+                    folded_lead = true;
+                }
+            }
+        }
+    }
+    (header_comment, folded_lead)
+}
+
 struct Generated {
     case: Case,
     stream: Vec<Y>,
@@ -555,16 +678,25 @@ struct Generated {
 }
 
 fn gen_case(u: &mut Src, av: Avoid) -> Generated {
-    let simple = if av.tame_half { u.bool() } else { u.ratio(1, 8) };
-    let o = doc_opts(simple);
+    let want_write = u.ratio(3, 4);
+    let simple = if want_write && av.dom_quoting { true } else { u.ratio(1, 8) };
+    let mut o = doc_opts(simple);
     let stream = gy::gen_stream(u, &o);
-    let rendered = gy::render(&stream, u, &o);
-    let hints = yqprog::hints_of(&rendered, 0);
-    let mut prog = yqprog::gen_write(u, &stream[0], &hints);
-    if simple {
-        // the simple palette is for structure: keep program literals simple too is not
-        // needed (they are what the emitter must quote); nothing to do
+    let mut rendered = gy::render(&stream, u, &o);
+    for _ in 0..2 {
+        let (hc, fl) = own_shapes(&rendered);
+        if av.header_comment && hc {
+            o.comments = false;
+        } else if av.folded_leading_blank && fl {
+            o.block_scalars = false;
+        } else {
+            break;
+        }
+        rendered = gy::render(&stream, u, &o);
     }
+    let hints = yqprog::hints_of(&rendered, 0);
+    let mode = if want_write { ProgMode::WriteOnly } else { ProgMode::ReadOnly };
+    let prog = yqprog::gen_write(u, &stream[0], &hints, mode, simple && av.dom_quoting);
     let mut indent = match u.below(20) {
         0 => 8u8,
         1..=3 => 0,
@@ -573,9 +705,6 @@ fn gen_case(u: &mut Src, av: Avoid) -> Generated {
     };
     if av.i0_writes && indent == 0 && prog.is_write {
         indent = 2 + (u.below(6) as u8);
-    }
-    if prog.text.is_empty() {
-        prog.text = ".".into();
     }
     Generated { case: Case { yaml: rendered.text.clone(), program: prog.text.clone(), indent }, stream, rendered, prog, simple }
 }
@@ -613,11 +742,34 @@ fn describe(c: &Case) -> Value {
     json!({"yaml_hex": hex(&c.yaml), "yaml": String::from_utf8_lossy(&c.yaml), "program": c.program, "indent": c.indent})
 }
 
+/// development aid: VH_C15_SURVEY=<file> appends every failure (signature + case) to <file>
+/// and keeps searching without shrinking
+fn survey(f: &Fail, case: Value, st: &mut Stats) -> bool {
+    if let Ok(path) = std::env::var("VH_C15_SURVEY") {
+        use std::io::Write;
+        if let Ok(mut fh) = std::fs::OpenOptions::new().create(true).append(true).open(&path) {
+            let _ = writeln!(fh, "{}", json!({"sig": f.sig, "detail": f.detail, "case": case}));
+        }
+        st.class("survey:failure");
+        return true;
+    }
+    false
+}
+
 fn run_case(u: &mut Src, st: &mut Stats, av: Avoid) -> Result<(), Fail> {
     let g = gen_case(u, av);
     classify(&g, st);
     st.describe(|| describe(&g.case));
-    match check_case(&g.case, st)? {
+    let outcome = match check_case(&g.case, st) {
+        Ok(o) => o,
+        Err(f) => {
+            if survey(&f, describe(&g.case), st) {
+                return Ok(());
+            }
+            return Err(f);
+        }
+    };
+    match outcome {
         Outcome::Reread { aliases, anchors } => {
             st.class("outcome:reread-compared");
             st.class_if(aliases > 0, "output-has-alias");
@@ -631,6 +783,64 @@ fn run_case(u: &mut Src, st: &mut Stats, av: Avoid) -> Result<(), Fail> {
         Outcome::Discarded => st.discard(),
     }
     Ok(())
+}
+
+// ---------------------------------------------------------------- quoting matrix
+
+const MATRIX_DOC: &str = "a: 1\nb: [x, \"y\"]\nc: {p: 1}\n";
+
+/// (context name, role, program for the string literal `s`)
+fn matrix_prog(ctx: usize, s: &str) -> (&'static str, String) {
+    let q = crate::oracle::jqeval::jq_string(s);
+    match ctx {
+        0 => ("value-in-block", format!(".zz = {}", q)),
+        1 => ("value-in-block", format!(".zz = [{q}, [{q}], {{\"k\": {q}}}]", q = q)),
+        2 => ("value-in-flow", format!(".b += [{}]", q)),
+        3 => ("value-in-flow", format!(".c.q = {}", q)),
+        4 => ("key-in-block", format!(".[{}] = 1", q)),
+        5 => ("key-in-block", format!(".zz = [{{{}: 1, \"b\": 2}}]", q)),
+        _ => ("key-in-flow", format!(".c += {{{}: 1}}", q)),
+    }
+}
+
+/// One string through one position of the DOM emitter; a failure is attributed to
+/// (position, class of the string) whatever its symptom.
+fn matrix_case(u: &mut Src, st: &mut Stats) -> Result<(), Fail> {
+    let o = YOpts::full();
+    let ctx = u.below(7);
+    let mut s = if ctx >= 4 && u.bool() { gy::gen_key(u, &o) } else { gy::gen_string(u, &o) };
+    if s == "<<" {
+        // a key spelled `<<` is a merge key even when quoted (documented, test-pinned)
+        s = "<<<".into();
+    }
+    let (ctx_name, program) = matrix_prog(ctx, &s);
+    let class = str_class(&s, false);
+    st.class(ctx_name);
+    st.class(&format!("class:{}", class));
+    st.nontrivial(hash_str(&format!("{}|{}", ctx, s)));
+    st.sample(class, || json!({"string": s, "position": ctx_name, "program": program}));
+    let case = Case { yaml: MATRIX_DOC.as_bytes().to_vec(), program, indent: 2 };
+    st.describe(|| describe(&case));
+    match check_once(&case, 2, st) {
+        Ok(Outcome::Discarded) => {
+            st.discard();
+            Ok(())
+        }
+        Ok(_) => Ok(()),
+        Err(f) if f.sig.starts_with("C15/crash") => Err(f),
+        Err(f) => {
+            let mut d = f.detail.clone();
+            if let Some(m) = d.as_object_mut() {
+                m.insert("symptom".into(), json!(f.sig));
+                m.insert("string".into(), json!(s));
+            }
+            let f = Fail::new(format!("C15/dom-quoting/{}/{}", ctx_name, class), d);
+            if survey(&f, describe(&case), st) {
+                return Ok(());
+            }
+            Err(f)
+        }
+    }
 }
 
 fn replay_input(v: &Value) -> Option<Fail> {
@@ -647,9 +857,16 @@ fn replay_input(v: &Value) -> Option<Fail> {
     let indent = inp["indent"].as_u64().unwrap_or(2) as u8;
     let case = Case { yaml, program, indent };
     let mut st = Stats::default();
-    match catch(|| check_case(&case, &mut st)) {
+    let r = catch(|| check_case(&case, &mut st));
+    match r {
         Ok(Ok(_)) => None,
-        Ok(Err(f)) => Some(f),
+        Ok(Err(f)) => {
+            // a quoting-matrix replay names its (position, class) signature itself
+            match (v["subcheck"].as_str(), inp["matrix_signature"].as_str()) {
+                (Some("quoting-matrix"), Some(sig)) if !f.sig.starts_with("C15/crash") => Some(Fail::new(sig, f.detail)),
+                _ => Some(f),
+            }
+        }
         Err((loc, msg)) => Some(Fail::new(format!("panic@{}", panic_sig(&loc)), json!({"panic": msg, "location": loc}))),
     }
 }
@@ -669,10 +886,27 @@ pub fn run(cx: &mut Ctx) {
             cx.replay_outcome(&name, r);
         }
     }
-    let quoting_open = cx.known.iter().any(|k| k.status == "known" && (k.signature.starts_with("C15/reread-differs/str:") || k.signature.starts_with("C15/reread-differs/key:")));
-    let av = Avoid { i0_writes: cx.is_known(SIG_I0), tame_half: quoting_open };
+    let av = Avoid {
+        i0_writes: cx.is_known(SIG_I0),
+        dom_quoting: cx.known.iter().any(|k| k.status == "known" && k.signature.starts_with("C15/dom-quoting/")),
+        header_comment: cx.is_known(SIG_HEADER_COMMENT),
+        folded_leading_blank: cx.is_known(SIG_FOLDED_LEAD),
+    };
+    let mut avoided = vec![];
     if av.i0_writes {
-        cx.note("open finding: `-I 0` with a write program is not generated in `reread` (zero-indentation finding); `open-finding-shapes` generates it");
+        avoided.push("`-I 0` with a write program");
+    }
+    if av.dom_quoting {
+        avoided.push("hostile strings through the DOM emitter (write programs use the simple string palette; `quoting-matrix` covers the full palette)");
+    }
+    if av.header_comment {
+        avoided.push("a comment on a block scalar header line");
+    }
+    if av.folded_leading_blank {
+        avoided.push("a folded block scalar starting with a line break");
+    }
+    if !avoided.is_empty() {
+        cx.note(format!("open findings: `reread` does not generate {}; `open-finding-shapes` does", avoided.join("; ")));
     }
     cx.check("reread", RULE, Budget { quick: 3_000, thorough: 150_000, max_len: 3000 }, |u, st| run_case(u, st, av));
     for cl in [
@@ -683,12 +917,22 @@ pub fn run(cx: &mut Ctx) {
     ] {
         cx.require_class("reread", cl, 10);
     }
-    let none = Avoid { i0_writes: false, tame_half: false };
+    cx.check(
+        "quoting-matrix",
+        "one string of the G-yaml palette (ambiguous-looking, indicators, white space, controls, non-ASCII) written by a program into one position of a fixed document (block value, value inside flow, block key, key inside flow); same oracle; a failure is attributed to (position, class of the string)",
+        Budget { quick: 1_200, thorough: 40_000, max_len: 400 },
+        matrix_case,
+    );
+    for cl in ["value-in-block", "value-in-flow", "key-in-block", "key-in-flow", "class:leading-space", "class:number-like", "class:null-bool-word", "class:line-break", "class:indicator-start", "class:colon-space"] {
+        cx.require_class("quoting-matrix", cl, 5);
+    }
+    // everything un-avoided whose failures the oracle can attribute by itself
+    let open = Avoid { dom_quoting: av.dom_quoting, ..Avoid::default() };
     cx.check(
         "open-finding-shapes",
-        "the same search with none of C15's own open-finding shapes avoided (`-I 0` with writes, full string palette everywhere); failures with a listed signature are counted, others are violations",
+        "the `reread` search with the shapes of C15's open findings generated on purpose (`-I 0` with writes, comments on block scalar headers, folded scalars starting with a line break); failures with a listed signature are counted, others are violations",
         Budget { quick: 600, thorough: 20_000, max_len: 3000 },
-        |u, st| run_case(u, st, none),
+        |u, st| run_case(u, st, open),
     );
     let t = TIMEOUTS.load(Ordering::Relaxed);
     if t > 0 {
